@@ -1062,4 +1062,49 @@ example := @cellpdf_inbounds Int intScale.toWOps cellToy (by decide) (by decide)
 
 end CellPdf
 
+/-! ## the two-vector constructor and the "`tree_` empty iff `data_` empty" invariant -/
+
+section Ctor
+open OmplModel.CellPdf (tree_nil_iff ofWeights_spec)
+variable {α : Type}
+
+/-- [AF] **`tree_` is empty exactly when `data_` is, and no tree row is ever empty**, after every finite sequence of
+add / update / remove / clear / sample.  (Every operation branches on one of the two and indexes the other: a bulk
+constructor that leaves a leaf row for no elements, or a `remove` that leaves empty rows after a full drain — the seeded
+changes C12-s6 / C12-s7 — break exactly this.) -/
+theorem storage_empty_iff [WOps α] (ops : List (Op α)) :
+    (((Pdf.empty : Pdf α).run ops).tree = [] ↔ ((Pdf.empty : Pdf α).run ops).data.size = 0) ∧
+      ∀ r ∈ ((Pdf.empty : Pdf α).run ops).tree, 0 < r.size :=
+  tree_nil_iff _ (shape_preserved ops)
+
+example : (@Pdf.run Int intScale.toWOps Pdf.empty [.add 1, .add 2, .remove 0, .remove 1]).tree = [] := by decide
+
+/-- [AF] **the constructor `PDF(data, weights)` is `add` in a loop on the empty structure** — so everything proved "after
+every operation sequence" holds for a constructed object and for every history continued on it (the driver's `ctor`
+replaces the object under test by `Pdf.ofWeights`). -/
+theorem ctor_is_adds [WOps α] (ws : List α) :
+    Pdf.ofWeights ws = (Pdf.empty : Pdf α).run (ws.map Op.add) := by
+  unfold Pdf.ofWeights Pdf.run
+  rw [List.foldl_map]
+  rfl
+
+/-- [AF] **what a constructed PDF holds** (any rewrite of the constructor must preserve this): for weights none of which
+`add` rejects, `PDF(data, weights)` has exactly `n` elements, element `i` at position `i` with `getWeight = weights[i]`,
+`ShapeInv`, `IdxSync`, and `tree_` is empty iff the input is (in particular: NO rows for empty input, one one-cell row
+for a single element). -/
+theorem ctor_spec [WOps α] (ws : List α) (hnn : ∀ w ∈ ws, WOps.lt w (WOps.zero : α) = false) :
+    ShapeInv (Pdf.ofWeights ws) ∧ IdxSync (Pdf.ofWeights ws) ∧ (Pdf.ofWeights ws).data.size = ws.length ∧
+      (Pdf.ofWeights ws).next = ws.length ∧ ((Pdf.ofWeights ws).tree = [] ↔ ws = []) ∧
+      ∀ i, i < ws.length → (Pdf.ofWeights ws).data[i]? = some i ∧ (Pdf.ofWeights ws).getWeight i = ws[i]? := by
+  have h := ofWeights_spec ws hnn
+  refine ⟨h.shape, h.idx, h.size, h.next, ?_, fun i hi => ⟨h.pos i hi, h.weight i hi⟩⟩
+  rw [(tree_nil_iff _ h.shape).1, h.size]
+  exact List.length_eq_zero_iff
+
+example : (@Pdf.ofWeights Int intScale.toWOps []).tree = [] ∧ (@Pdf.ofWeights Int intScale.toWOps [7]).tree = [#[7]] ∧
+    (@Pdf.ofWeights Int intScale.toWOps [1, 2, 3]).tree = [#[1, 2, 3], #[3, 3], #[6]] := by decide
+example := @ctor_spec Int intScale.toWOps [1, 0, 3] (by decide)
+
+end Ctor
+
 end OmplModel.Props.C12
